@@ -17,7 +17,8 @@ META = {
              "and 0 seams, near-isotropic) x every band kind; (ii) generated non-negative 2D spectra on uniform "
              "grids of 8..144 bins with arbitrary start, rolled by k bins (k in 0..N-1) and mirrored (grids closed "
              "under negation). Non-trivial = resultant R >= 1e-3 (direction well conditioned) and, for (ii), "
-             "k != 0 or mirror; distinct = sha1 of the case."),
+             "k != 0 or mirror; distinct = sha1 of the case."
+             " 1D moments include nearly unidirectional seas (radius 1-10^-u, u in 3..7.5)."),
     "assumptions": [
         "A,B = trapz(a1*e)/m0, trapz(b1*e)/m0 over the half-open band with missing moments counted as 0 (as the code documents); NaN-free e for the 1D definition check",
         "direction tolerance 1e-9/R degrees (atan2 conditioning), compared modulo 360; spread compared through sigma^2=2(1-R) with 1e-11 rad^2",
